@@ -155,6 +155,11 @@ _G = {"src": _CLS, "emit": "class", "parse": "class", "infer": False}
 _L = dict(_G, prepend="import json as path\n")
 W.append(("P45", "C10", {"inputs": {"g": _G, "leak": _L}, "scripts": [{"name": "plain", "calls": [["gen", "g"]]}, {"name": "leak-first", "calls": [["gen", "leak"], ["gen", "g"]]}], "seeds": [0, 0], "api": "gen", "key": "g"}))
 
+# ---- C11 witnesses
+W.append(("P1", "C11", {"fn": "emit_doc", "arg": "  \nfoo"}))
+W.append(("P1", "C11", {"fn": "emit_orig", "arg": "\n   \nfoo\n"}))
+W.append(("P1", "C11", {"fn": "emit_ir", "arg": {"ir": I([["a", {"typ": "int", "doc": "x"}]], doc=" \nbar"), "style": "google", "indent": 2, "kind": "function"}}))
+
 
 def main():
     for fid, prop, case in W:
